@@ -482,7 +482,8 @@ def itermv(ctx):
             ctx.ok(c, fn)
 
 
-@rule("C16.operand-kinds", props=["C16"], min_instances=12, mutants=[
+@rule("C16.operand-kinds", props=["C16", "C06", "C03", "C02"], min_instances=14, mutants=[
+    ("a plain number only rescales the other operand for the 'linear' operators (sw, proj included)", ("operator_dict", "        # Make sure all inputs are multivectors. If an input is not, assume its scalar.\n        mv1 = mv1 if isinstance(mv1, MultiVector)", "        if self.name in ('gp', 'op', 'ip', 'sw', 'proj') and isinstance(mv1, MultiVector) and not isinstance(mv2, MultiVector):\n            return mv1.map(lambda v: v * mv2)\n        # Make sure all inputs are multivectors. If an input is not, assume its scalar.\n        mv1 = mv1 if isinstance(mv1, MultiVector)")),
     ("registered functions call a callable argument only once", ("operator_dict", "            # Call until no longer callable.\n            while isinstance(mv, Callable) and not isinstance(mv, MultiVector):\n                mv = mv()\n            mvs[i] = mv", "            if isinstance(mv, Callable) and not isinstance(mv, MultiVector):\n                mv = mv()\n            mvs[i] = mv")),
     ("sequences are mapped before callables are resolved", ("operator_dict", "        while isinstance(mv1, Callable) and not isinstance(mv1, MultiVector):\n            mv1 = mv1()\n        while isinstance(mv2, Callable) and not isinstance(mv2, MultiVector):\n            mv2 = mv2()\n        # If mv2 is a list, apply mv1 to all elements in the list\n        if isinstance(mv2, (tuple, list)):\n            return type(mv2)(self._call_binary(mv1, mv) for mv in mv2)\n        # If mv1 is a list, apply mv2 to all elements in the list\n        if isinstance(mv1, (tuple, list)):\n            return type(mv1)(self._call_binary(mv, mv2) for mv in mv1)\n",
         "        # If mv2 is a list, apply mv1 to all elements in the list\n        if isinstance(mv2, (tuple, list)):\n            return type(mv2)(self._call_binary(mv1, mv) for mv in mv2)\n        # If mv1 is a list, apply mv2 to all elements in the list\n        if isinstance(mv1, (tuple, list)):\n            return type(mv1)(self._call_binary(mv, mv2) for mv in mv1)\n        while isinstance(mv1, Callable) and not isinstance(mv1, MultiVector):\n            mv1 = mv1()\n        while isinstance(mv2, Callable) and not isinstance(mv2, MultiVector):\n            mv2 = mv2()\n")),
@@ -510,7 +511,7 @@ def operand_kinds(ctx):
         def getitem(key):
             log.append(("lookup", tname(key)))
             return (tok("KEYS_OUT"), func)
-        me = Obj("OperatorDict", {"algebra": alg}, {"filter": lambda k, v: (k, v)}, getitem=getitem)
+        me = Obj("OperatorDict", {"algebra": alg, "name": "cp"}, {"filter": lambda k, v: (k, v)}, getitem=getitem)
 
         def mv(i):
             return Obj("MultiVector", {"algebra": alg, "_keys": tok(f"K{i}"), "_values": tok(f"V{i}"), "issymbolic": False})
@@ -543,6 +544,42 @@ def operand_kinds(ctx):
         "mv, callable returning a tuple": (lambda mv, th: (mv(1), th((mv(2), mv(3)))), ["tuple", "mv", "mv"], pair(1, 2) + pair(1, 3)),
         "list of callables, mv": (lambda mv, th: ([th(mv(1)), mv(2)], mv(3)), ["list", "mv", "mv"], pair(1, 3) + pair(2, 3)),
     }
+    # a plain number on either side is wrapped as the scalar multivector and goes through the operator's own generated
+    # function - for EVERY binary operator of the registry (sw and proj are quadratic: "a number only rescales" is false)
+    from ..surface import operator_registry
+    binary_ops = [n for n, row in operator_registry(repo).items() if "Unary" not in row.dict_class]
+    for side in (0, 1):
+        c = f"{q}#kinds:plain number {'left' if side == 0 else 'right'}, every operator"
+        bad = []
+        for opname in binary_ops:
+            log = []
+            func = Obj("function", {"__name__": "FN", "fmt": "<FN>"}, call=lambda *a, log=log: (log.append(("call", tuple(tname(x) for x in a))), tok("VALUES_OUT"))[1])
+            alg = Obj("algebra", {"wrapper": None, "simp_func": None, "numspace": {}, "codegen_symbolcls": None, "fmt": "ALG"})
+            alg.methods["compare"] = lambda op, other, alg=alg: (other is alg) if op == "Eq" else (other is not alg) if op == "NotEq" else Unk("cmp")
+            me = Obj("OperatorDict", {"algebra": alg, "name": opname}, {"filter": lambda k, v: (k, v)},
+                     getitem=lambda key, log=log, func=func: (log.append(("lookup", tname(key))), (tok("KEYS_OUT"), func))[1])
+            from ..symenv import Val
+            mv = Obj("MultiVector", {"algebra": alg, "_keys": (4, 1), "_values": [Val("V4"), Val("V1")], "issymbolic": False})
+            it = make_interp(repo)
+            it.instance_classes.update({"OperatorDict": "operator_dict.OperatorDict"})
+            try:
+                out = it.run(q, [me, 3, mv] if side == 0 else [me, mv, 3])
+            except NoValue as exc:
+                raise Unknown(c, f"{opname}: {exc}", fn)
+            want_key = ((0,), (4, 1)) if side == 0 else ((4, 1), (0,))
+            lookups = [e for e in log if e[0] == "lookup"]
+            calls = [e for e in log if e[0] == "call"]
+            scaling_is_the_definition = {"gp", "op", "ip"} | ({"lc"} if side == 0 else {"rc"})
+            if out[0] == "return" and not log and opname in scaling_is_the_definition and isinstance(out[1], Obj) \
+                    and out[1].kind == "MultiVector" and tuple(out[1].attrs.get("_keys", ())) == (4, 1):
+                continue        # number (.) x = number * x for these operators: rescaling the stored coefficients is the operator
+            if out[0] == "raise" or lookups != [("lookup", want_key)] or len(calls) != 1:
+                bad.append(f"{opname}: {out[0]} via {log}")
+        if bad:
+            ctx.violation(c, f"{len(bad)} of {len(binary_ops)} operators do not send a plain number through their own generated function "
+                             f"(lookup with the scalar key (0,), one call): " + "; ".join(bad[:3]), fn)
+        else:
+            ctx.ok(c, fn, operators=len(binary_ops))
     # registered functions: the same treatment of callables and plain numbers for every argument
     qr = "operator_dict.Registry.__call__"
     fnr = ctx.func(qr)
@@ -556,7 +593,7 @@ def operand_kinds(ctx):
         def getitem(key):
             log.append(("lookup", tname(key)))
             return (tok("KEYS_OUT"), func)
-        me = Obj("Registry", {"algebra": alg}, {}, getitem=getitem)
+        me = Obj("Registry", {"algebra": alg, "name": "user_function"}, {}, getitem=getitem)
 
         def mv(i):
             return Obj("MultiVector", {"algebra": alg, "_keys": tok(f"K{i}"), "_values": tok(f"V{i}"), "issymbolic": False})
